@@ -23,10 +23,10 @@ import (
 // NullLogger satisfies sts.Logger and drops everything.
 type NullLogger struct{}
 
-func (NullLogger) Debug(...interface{})  {}
-func (NullLogger) Info(...interface{})   {}
-func (NullLogger) Error(...interface{})  {}
-func (NullLogger) Recent(int) []string   { return nil }
+func (NullLogger) Debug(...interface{}) {}
+func (NullLogger) Info(...interface{})  {}
+func (NullLogger) Error(...interface{}) {}
+func (NullLogger) Recent(int) []string  { return nil }
 
 // ---------------------------------------------------------------- environment
 
@@ -57,7 +57,6 @@ func Mine(k int) bool {
 	i, n := Shard()
 	return k%n == i
 }
-
 
 // DeadlinePassed reports whether the internal (real-time) budget is used up.
 // It only ever ends exploration early with exhaustive=false; it is never an oracle.
@@ -246,23 +245,23 @@ type Violation struct {
 
 // Report is what one worker process writes.
 type Report struct {
-	Property    string            `json:"property"`
-	Part        string            `json:"part"`
-	Shard       string            `json:"shard"`
-	Executions  int64             `json:"executions"`
-	States      int64             `json:"states"`
-	Transitions int64             `json:"transitions"`
-	Nontrivial  int64             `json:"nontrivial"`
-	Exhaustive  bool              `json:"exhaustive"`
-	Bound       string            `json:"bound"`
-	Counters    map[string]int64  `json:"counters"`
-	Outcomes    map[string]int64  `json:"outcomes"`
-	StateHashes []string          `json:"state_hashes,omitempty"`
-	Samples     []interface{}     `json:"samples"`
-	Violations  []Violation       `json:"violations"`
-	Notes       []string          `json:"notes,omitempty"`
-	EngineError string            `json:"engine_error,omitempty"`
-	WallS       float64           `json:"wall_s"`
+	Property    string           `json:"property"`
+	Part        string           `json:"part"`
+	Shard       string           `json:"shard"`
+	Executions  int64            `json:"executions"`
+	States      int64            `json:"states"`
+	Transitions int64            `json:"transitions"`
+	Nontrivial  int64            `json:"nontrivial"`
+	Exhaustive  bool             `json:"exhaustive"`
+	Bound       string           `json:"bound"`
+	Counters    map[string]int64 `json:"counters"`
+	Outcomes    map[string]int64 `json:"outcomes"`
+	StateHashes []string         `json:"state_hashes,omitempty"`
+	Samples     []interface{}    `json:"samples"`
+	Violations  []Violation      `json:"violations"`
+	Notes       []string         `json:"notes,omitempty"`
+	EngineError string           `json:"engine_error,omitempty"`
+	WallS       float64          `json:"wall_s"`
 	mu          sync.Mutex
 }
 
